@@ -3,7 +3,10 @@
    begin/end stamps, and every message each connection received with its
    stamp.  Connections may connect late ([DOpen]) and clients that have
    stopped reading may leave with deliveries pending (a [DPause] that is
-   followed by the connection's ODisc without a [DResume]).
+   followed by the connection's ODisc without a [DResume]).  A client that has
+   stopped reading can still send ([DPend]): the session takes the message,
+   does its work on the registry, and blocks handing over the reply until the
+   client reads again (or goes away).
 
    model agrees  (deterministic layer only): there is a schedule of the model
      (Router.v) that is consistent with the real-time facts of the history
@@ -12,6 +15,14 @@
      Go's map iteration order; both are resolved from the observation
      (iteration order = order of the observed copies; the forwarder is run as
      late as the observation allows, which decides every full-queue drop).
+     For a [DPend] one more thing is free: the client only knows that the
+     session has taken the message, not when the session's goroutine did the
+     registry work that follows (REQ: the subscription becomes visible to
+     publishers; EVENT: the copies are enqueued).  The schedules tried are:
+     at once, for every such operation (what happens unless the goroutine is
+     held up by the scheduler), and, for one of them at a time, just before
+     the k-th later operation of the script, k = 1 .. up to the point where
+     the connection reads again or goes away.
    oracle accepts: RouterSpec's clauses on the history alone. *)
 From Moc Require Import Base Match Router RouterSpec.
 Open Scope Z_scope.
@@ -23,6 +34,10 @@ Inductive dop :=
 | DCut (c : nat) (o : op) (b : Z) (d : option Z)
     (* the client sent o and disconnected without waiting for the reply (the disconnect itself
        follows as a DO .. ODisc); d: the reply arrived all the same *)
+| DPend (c : nat) (o : op) (b : Z) (d : option Z)
+    (* the client, which is not reading (a DPause precedes), handed o over without waiting for the
+       reply; nothing more is sent on c until it reads again.  d: the reply was read at d, after the
+       client had resumed ([None]: the client went away without reading) *)
 | DOpen (c : nat) (b : Z).
     (* connection c connects only now (its ServeNostr is started on the shared router): before
        this point it does not exist.  In the model a connection is an index with its own fresh
@@ -37,7 +52,7 @@ Inductive case :=
 | CCrash (race : bool).           (* the harness process died: data race reported / panic *)
 
 Definition hops (ops : list dop) : list hop :=
-  flat_map (fun o => match o with DO c o b d | DCut c o b d => [mkHop c o b d] | _ => [] end) ops.
+  flat_map (fun o => match o with DO c o b d | DCut c o b d | DPend c o b d => [mkHop c o b d] | _ => [] end) ops.
 
 Definition hist_of (buf : Z) (ops : list dop) (outs : list (list (xmsg * Z))) (drained : list bool) : history :=
   mkHist buf (hops ops) outs drained.
@@ -122,8 +137,10 @@ Definition make_room (paused : list nat) (s : rstate) (x : nat) : option rstate 
 (** run connection c's goroutine until its operation is over; if the session's
     context was cancelled in flight: [giveup] says whether the reply was seen,
     and the run goes on until the deferred UnsubscribeAll is done (the
-    forwarder may hand over what the client received until the loop returns) *)
-Fixpoint drive (fuel : nat) (paused : list nat) (s : rstate) (c : nat) (giveup : bool) : option rstate :=
+    forwarder may hand over what the client received until the loop returns).
+    [hold]: stop in front of the instruction that hands over the reply (the
+    client is not reading, the goroutine blocks there) *)
+Fixpoint drive (fuel : nat) (paused : list nat) (s : rstate) (c : nat) (giveup hold : bool) : option rstate :=
   match fuel with
   | O => None
   | S f =>
@@ -131,7 +148,7 @@ Fixpoint drive (fuel : nat) (paused : list nat) (s : rstate) (c : nat) (giveup :
       | [] =>
           if mem_conn c (r_cancel s) then
             match force (force_fuel s c) s c (obs_total c) with
-            | Some s1 => drive f paused (step s1 (LRun c)) c giveup
+            | Some s1 => drive f paused (step s1 (LRun c)) c giveup hold
             | None => None
             end
           else Some s
@@ -143,43 +160,119 @@ Fixpoint drive (fuel : nat) (paused : list nat) (s : rstate) (c : nat) (giveup :
           let obs := obs_order c' (ev_id e) in
           let dropped := List.map fst (filter (fun kv => sub_matches e (snd kv) && negb (mem_str (fst kv) obs)) m) in
           let room := (r_buf s - length (c_q (r_cs s c')))%nat in
-          drive f paused (step s (LVisit c c' (firstn room obs ++ dropped ++ skipn room obs))) c giveup
+          drive f paused (step s (LVisit c c' (firstn room obs ++ dropped ++ skipn room obs))) c giveup hold
       | IVisit e t c' ((sub, fs) :: _) :: _ =>
           if sub_matches e fs then
             if mem_str sub (obs_order c' (ev_id e)) then
               match make_room paused s c' with
-              | Some s1 => drive f paused (step s1 (LRun c)) c giveup
+              | Some s1 => drive f paused (step s1 (LRun c)) c giveup hold
               | None => None
               end
             else if (mem_conn c' discs || is_sentinel e) && Nat.leb (obs_total c') (ev_count (flow (r_cs s c'))) then
               (* everything c' ever received is already on its way, and c' is disconnected
                  later (or this is a flush event published while the harness was finishing):
                  the copy is lost either here (full queue) or when the session ends *)
-              drive f paused (step s (LRun c)) c giveup
+              drive f paused (step s (LRun c)) c giveup hold
             else
               (* not received: must have been dropped, so the queue must be full even
                  though the forwarder ran as late as possible *)
-              if Nat.ltb (length (c_q (r_cs s c'))) (r_buf s) then None else drive f paused (step s (LRun c)) c giveup
-          else drive f paused (step s (LRun c)) c giveup
+              if Nat.ltb (length (c_q (r_cs s c'))) (r_buf s) then None else drive f paused (step s (LRun c)) c giveup hold
+          else drive f paused (step s (LRun c)) c giveup hold
       | IEose _ :: _ | IOk _ :: _ | ICount _ :: _ =>
-          if giveup && mem_conn c (r_cancel s) then drive f paused (step s (LSkip c)) c giveup else
+          if hold then Some s else
+          if giveup && mem_conn c (r_cancel s) then drive f paused (step s (LSkip c)) c giveup hold else
           let k := events_before_reply (out_x c) (reply_count (c_out (r_cs s c))) 0 in
           match force (force_fuel s c) s c k with
-          | Some s1 => drive f paused (step s1 (LRun c)) c giveup
+          | Some s1 => drive f paused (step s1 (LRun c)) c giveup hold
           | None => None
           end
-      | _ => drive f paused (step s (LRun c)) c giveup
+      | _ => drive f paused (step s (LRun c)) c giveup hold
       end
   end.
 
 Definition wants_reply_op (o : op) : bool := wants_reply o.
 
-Fixpoint sim (conns : list nat) (ops : list dop) (paused : list nat) (s : rstate) : option rstate :=
+(** an operation in flight of a client that is not reading: the connection, how
+    many more operations of the script begin before the session's goroutine
+    does the work that precedes the reply (0: done, it is blocked in front of
+    the reply), and whether the reply was read in the end *)
+Definition pent := (nat * nat * bool)%type.
+
+Definition pend_get (c : nat) (pend : list pent) : option (nat * bool) :=
+  match filter (fun p : pent => Nat.eqb (fst (fst p)) c) pend with
+  | (_, j, a) :: _ => Some (j, a)
+  | [] => None
+  end.
+
+Definition pend_del (c : nat) (pend : list pent) : list pent :=
+  filter (fun p : pent => negb (Nat.eqb (fst (fst p)) c)) pend.
+
+(** the goroutine of [c] runs up to the reply, which it cannot hand over *)
+Definition run_held (paused : list nat) (s : rstate) (c : nat) : option rstate := drive 3000 paused s c false true.
+
+(** one more operation of the script begins: a goroutine that was held up and
+    whose time has come does its work now *)
+Fixpoint tick_pend (paused : list nat) (pend : list pent) (s : rstate) : option (list pent * rstate) :=
+  match pend with
+  | [] => Some ([], s)
+  | (c, j, a) :: pend' =>
+      let s1 := match j with 1%nat => run_held paused s c | _ => Some s end in
+      match s1 with
+      | None => None
+      | Some s1 =>
+          match tick_pend paused pend' s1 with
+          | Some (p, s2) => Some ((c, Nat.pred j, a) :: p, s2)
+          | None => None
+          end
+      end
+  end.
+
+(** [delays]: for the DPend operations of the script, in order, the number of
+    later operations that begin before the session's goroutine gets to its
+    work (missing entries: 0) *)
+Fixpoint sim (conns : list nat) (ops : list dop) (delays : list nat) (paused : list nat) (pend : list pent)
+         (s : rstate) : option rstate :=
   match ops with
-  | [] => Some s
-  | DPause c _ :: ops' => sim conns ops' (c :: paused) s
-  | DResume c _ :: ops' => sim conns ops' (remove_conn c paused) s
-  | DOpen c _ :: ops' => sim conns ops' paused s
+  | [] => match pend with [] => Some s | _ :: _ => None end   (* the model always answers *)
+  | DPause c _ :: ops' => sim conns ops' delays (c :: paused) pend s
+  | DResume c _ :: ops' =>
+      let paused' := remove_conn c paused in
+      match pend_get c pend with
+      | None => sim conns ops' delays paused' pend s
+      | Some (j, answered) =>
+          (* the client reads again: the reply in flight is handed over, before or after or between
+             the events that were waiting -- as observed *)
+          if answered then
+            match (match j with O => Some s | S _ => run_held paused s c end) with
+            | None => None
+            | Some s1 =>
+                match drive 3000 paused' s1 c false false with
+                | Some s2 => sim conns ops' delays paused' (pend_del c pend) s2
+                | None => None
+                end
+            end
+          else None                (* the model always answers *)
+      end
+  | DOpen c _ :: ops' => sim conns ops' delays paused pend s
+  | DPend c o b d :: ops' =>
+      match pend_get c pend, c_pc (r_cs s c), wants_reply_op o with
+      | None, [], true =>
+          match force_all s conns b with
+          | None => None
+          | Some s1 =>
+              match tick_pend paused pend s1 with
+              | None => None
+              | Some (pend1, s2) =>
+                  let j := hd O delays in
+                  let s3 := step s2 (LOp c o) in
+                  match (match j with O => run_held paused s3 c | S _ => Some s3 end) with
+                  | Some s4 => sim conns ops' (tl delays) paused ((c, j, is_some d) :: pend1) s4
+                  | None => None
+                  end
+              end
+          end
+      | _, _, _ => None
+      end
   | DO c o b d :: ops' =>
       match d, wants_reply_op o with
       | None, true => None      (* the model always answers *)
@@ -187,30 +280,78 @@ Fixpoint sim (conns : list nat) (ops : list dop) (paused : list nat) (s : rstate
           match force_all s conns b with
           | None => None
           | Some s1 =>
-              let s2 := match o with
-                        | ODisc => force (force_fuel s1 c) s1 c (obs_total c)
-                        | _ => Some s1
-                        end in
-              match s2 with
+              match tick_pend paused pend s1 with
               | None => None
-              | Some s2 =>
-                  match drive 3000 paused (step s2 (LOp c o)) c false with
-                  | Some s3 => sim conns ops' paused s3
+              | Some (pend1, s1) =>
+                  let s2 := match o with
+                            | ODisc => force (force_fuel s1 c) s1 c (obs_total c)
+                            | _ => Some s1
+                            end in
+                  match s2 with
                   | None => None
+                  | Some s2 =>
+                      match pend_get c pend1, o with
+                      | None, _ =>
+                          match drive 3000 paused (step s2 (LOp c o)) c false false with
+                          | Some s3 => sim conns ops' delays paused pend1 s3
+                          | None => None
+                          end
+                      | Some (j, answered), ODisc =>
+                          (* the client goes away with an operation in flight: the work on the registry is
+                             completed, the reply is given up (it was never read) *)
+                          match (match j with O => Some s2 | S _ => run_held paused s2 c end) with
+                          | None => None
+                          | Some s2' =>
+                              match drive 3000 paused (step s2' (LOp c ODisc)) c (negb answered) false with
+                              | Some s3 => sim conns ops' delays paused (pend_del c pend1) s3
+                              | None => None
+                              end
+                          end
+                      | Some _, _ => None   (* the session takes nothing while its reply is in flight *)
+                      end
                   end
               end
           end
       end
   | DCut c o b d :: ops' =>
-      match force_all s conns b with
-      | None => None
-      | Some s1 =>
-          let giveup := match d with None => true | Some _ => false end in
-          match drive 3000 paused (step (step s1 (LOp c o)) (LOp c ODisc)) c giveup with
-          | Some s3 => sim conns ops' paused s3
+      match pend_get c pend, force_all s conns b with
+      | None, Some s1 =>
+          match tick_pend paused pend s1 with
           | None => None
+          | Some (pend1, s1) =>
+              let giveup := match d with None => true | Some _ => false end in
+              match drive 3000 paused (step (step s1 (LOp c o)) (LOp c ODisc)) c giveup false with
+              | Some s3 => sim conns ops' delays paused pend1 s3
+              | None => None
+              end
           end
+      | _, _ => None
       end
+  end.
+
+(** how many operations begin between a [DPend] of c and the moment c reads again or goes away *)
+Fixpoint pend_span (c : nat) (ops : list dop) : nat :=
+  match ops with
+  | [] => O
+  | DResume c' _ :: ops' => if Nat.eqb c c' then O else pend_span c ops'
+  | DO c' ODisc _ _ :: ops' => if Nat.eqb c c' then O else S (pend_span c ops')
+  | DO _ _ _ _ :: ops' | DCut _ _ _ _ :: ops' | DPend _ _ _ _ :: ops' => S (pend_span c ops')
+  | _ :: ops' => pend_span c ops'
+  end.
+
+(** the schedules tried beside "every goroutine does its work at once" ([[]]): one goroutine is held up *)
+Fixpoint delay_cands (ops : list dop) (before : nat) : list (list nat) :=
+  match ops with
+  | [] => []
+  | DPend c _ _ _ :: ops' =>
+      List.map (fun k => repeat O before ++ [k]) (seq 1 (pend_span c ops')) ++ delay_cands ops' (S before)
+  | _ :: ops' => delay_cands ops' before
+  end.
+
+Fixpoint lazy_existsb {A} (f : A -> bool) (l : list A) : bool :=
+  match l with
+  | [] => false
+  | a :: l' => if f a then true else lazy_existsb f l'
   end.
 
 Fixpoint finish (s : rstate) (xs : list nat) : option rstate :=
@@ -252,17 +393,19 @@ Definition model_agrees (buf : Z) (ops : list dop) (outs : list (list (xmsg * Z)
   | Some s0 =>
       let conns := seq 0 (length outs) in
       let discs := flat_map (fun o => match o with DO c ODisc _ _ | DCut c _ _ _ => [c] | _ => [] end) ops in
-      match sim outs discs conns ops [] s0 with
-      | None => false
-      | Some s1 =>
-          match finish outs s1 conns with
-          | None => false
-          | Some s2 =>
-              forallb (out_agrees outs s2) conns &&
-              (Z.of_nat (length (r_reg s2)) =? reg_end) &&
-              (Z.of_nat (fold_right (fun cm acc => (length (snd cm) + acc)%nat) O (r_reg s2)) =? subs_end)
-          end
-      end
+      let try := fun delays : list nat =>
+        match sim outs discs conns ops delays [] [] s0 with
+        | None => false
+        | Some s1 =>
+            match finish outs s1 conns with
+            | None => false
+            | Some s2 =>
+                forallb (out_agrees outs s2) conns &&
+                (Z.of_nat (length (r_reg s2)) =? reg_end) &&
+                (Z.of_nat (fold_right (fun cm acc => (length (snd cm) + acc)%nat) O (r_reg s2)) =? subs_end)
+            end
+        end in
+      if try [] then true else lazy_existsb try (delay_cands ops 0)
   end.
 
 (* ------------------------------------------------------------------ *)
